@@ -31,16 +31,18 @@ pub struct Cell {
 pub fn cell(obstacle: Option<WBox>, safety_um: i64) -> Cell { cell_with(obstacle, safety_um, 6.0, false) }
 
 /// `j6_limit`: joint 6 may turn +- this many radians; `wide`: generous J2/J3/J5 ranges (more landing strategies)
-pub fn cell_with(obstacle: Option<WBox>, safety_um: i64, j6_limit: f64, wide: bool) -> Cell { cell_full(obstacle, safety_um, j6_limit, wide, 0) }
+pub fn cell_with(obstacle: Option<WBox>, safety_um: i64, j6_limit: f64, wide: bool) -> Cell { cell_full(obstacle, safety_um, j6_limit, wide, 0, None) }
 
 /// `fragile_um`: when positive, the obstacle is a fragile object: wrist (links 5, 6) and tool have to stay that far
 /// from it (special distances towards an environment object, larger than the general one)
-pub fn cell_full(obstacle: Option<WBox>, safety_um: i64, j6_limit: f64, wide: bool, fragile_um: i64) -> Cell {
+/// `limits`: joint ranges to use instead of the standard ones
+pub fn cell_full(obstacle: Option<WBox>, safety_um: i64, j6_limit: f64, wide: bool, fragile_um: i64, limits: Option<(Joints, Joints)>) -> Cell {
     let p = Parameters::irb2400_10();
     let tool_iso = Iso { r: oracle::I3, t: [0.0, 0.0, 0.15] };
     let base_iso = Iso::identity();
     let from: Joints = if wide { [-3.1, -2.6, -3.0, -3.4, -2.4, -j6_limit] } else { [-3.0, -1.7, -1.0, -3.4, -2.0, -j6_limit] };
     let to: Joints = if wide { [3.1, 2.6, 3.0, 3.4, 2.4, j6_limit] } else { [3.0, 1.9, 1.1, 3.4, 2.0, j6_limit] };
+    let (from, to) = limits.unwrap_or((from, to));
     let reference = Robot::new(p, vec![LayerF::Tool(tool_iso), LayerF::Base(base_iso)], Some((from, to, 0.0)));
     let home: Joints = [0.0, 0.2, 0.1, 0.0, 0.9, 0.0];
     let links = reference.kin.forward_with_joint_poses(&home);
@@ -171,19 +173,19 @@ pub fn record(output: &str) {
     quiet_panics();
     let mut out = Out::create(output);
     let mut r = rng(1212);
-    let n_cases = if thorough() { 130 } else { 26 };
+    let n_cases = if thorough() { 140 } else { 28 };
     let mut case_no = 0usize;
     let reps = if thorough() { 3 } else { 1 };
     for k in 0..n_cases {
-        let obstacle_class = ["free", "blocking", "grazing", "at-stroke-pose", "wrist-flip", "branch-blocking", "repeated-poses", "fragile", "turning", "no-steps", "start-collides", "landing-unreachable", "turn-in-place"][k % 13];
+        let obstacle_class = ["free", "blocking", "grazing", "at-stroke-pose", "wrist-flip", "branch-blocking", "repeated-poses", "fragile", "turning", "no-steps", "start-collides", "landing-unreachable", "turn-in-place", "detour-onboarding"][k % 14];
         let y0 = r.gen_range(-0.25..-0.1);
         let y1 = r.gen_range(0.1..0.25);
         let x = r.gen_range(0.85..1.0);
         let z = r.gen_range(0.55..0.75);
         // the settings below vary with the occurrence number of the class (and a class-dependent shift), so that every
         // class meets every setting as the cases go on - a selector tied to k itself would alias with the class index
-        let nth = k / 13;
-        let v = nth + (k % 13) / 2;
+        let nth = k / 14;
+        let v = nth + (k % 14) / 2;
         let yaw = if v % 2 == 0 { 0.0 } else { r.gen_range(-0.5..0.5) };
         let obstacle: Option<WBox> = match obstacle_class {
             "blocking" => Some(WBox { c: [x, (y0 + y1) / 2.0, z + 0.03], h: [0.04, 0.03, 0.04] }),   // on the path of the tool body
@@ -245,6 +247,19 @@ pub fn record(output: &str) {
             park = down_pose(x, y1, z + 0.1, 7.5);
             j6_limit = 2.4;     // (limits are modular: a range of a full turn or more would never force a flip)
         }
+        let mut narrow_limits: Option<(Joints, Joints)> = None;
+        if obstacle_class == "detour-onboarding" {
+            // a vertical plate between the start position and the stroke (which lies entirely on its far side): the way
+            // to the landing pose has to be found by the joint-space planner, within ranges that leave J1, J4 and J6
+            // little more room than the motion needs
+            let yl = r.gen_range(-0.30..-0.24);
+            nsteps = 2;
+            steps = vec![down_pose(x, yl, z, yaw), down_pose(x, yl + 0.08, z, yaw)];
+            land = down_pose(x, yl, z + 0.1, yaw);
+            park = down_pose(x, yl + 0.08, z + 0.1, yaw);
+            obstacle = Some(WBox { c: [x, -0.08, z + 0.3], h: [0.35, 0.003, 0.6] });
+            narrow_limits = Some(([-0.75, -1.7, -1.0, -0.5, -2.0, -0.9], [0.35, 1.9, 1.1, 0.5, 2.0, 0.9]));
+        }
         if obstacle_class == "start-collides" {
             // a plate through the tool at the start configuration: planning has to refuse
             let c0 = cell_with(None, 0, 6.0, false);
@@ -256,16 +271,16 @@ pub fn record(output: &str) {
             obstacle = branch_blocker(&land, &steps, &park);
             if obstacle.is_none() { continue; }
         }
-        let cell = cell_full(obstacle, if v % 4 == 3 || obstacle_class == "fragile" { 10_000 } else { 0 }, j6_limit, obstacle_class == "branch-blocking", if obstacle_class == "fragile" { 150_000 } else { 0 });
+        let cell = cell_full(obstacle, if v % 4 == 3 || obstacle_class == "fragile" { 10_000 } else { 0 }, j6_limit, obstacle_class == "branch-blocking", if obstacle_class == "fragile" { 150_000 } else { 0 }, narrow_limits);
         // every third cell starts with joint 6 beyond half a turn (189 degrees, well inside its +-344 degree range)
         let mut start = cell.home;
         if (nth + k) % 3 == 2 && j6_limit > 4.0 && obstacle_class != "start-collides" { start[5] = 3.3; }
         let table_json = json!(cell.table.iter().map(|t| json!([t.0, t.1, t.2])).collect::<Vec<_>>());
         let nenv = cell.kws.body.collision_environment.len();
-        let include = (nth + k % 13) % 2 == 0;
-        let max_cost = if obstacle_class == "at-stroke-pose" { 25.0f64.to_radians() } else { [6.0f64, 12.0, 3.0][(nth + k % 13) % 3].to_radians() };
+        let include = (nth + k % 14) % 2 == 0;
+        let max_cost = if obstacle_class == "at-stroke-pose" { 25.0f64.to_radians() } else { [6.0f64, 12.0, 3.0][(nth + k % 14) % 3].to_radians() };
         // transition coefficients: the defaults, or a configuration that weighs some joints much more
-        let coeffs: Joints = match (nth + k % 13 / 3) % 3 { 0 => DEFAULT_TRANSITION_COSTS, 1 => [3.0, 2.5, 2.5, 0.9, 0.9, 3.5], _ => [2.4, 2.2, 2.2, 1.8, 1.8, 1.6] };
+        let coeffs: Joints = match (nth + k % 14 / 3) % 3 { 0 => DEFAULT_TRANSITION_COSTS, 1 => [3.0, 2.5, 2.5, 0.9, 0.9, 3.5], _ => [2.4, 2.2, 2.2, 1.8, 1.8, 1.6] };
         let mut outcomes: Vec<bool> = Vec::new();
         let mut any_rrt = false;
         case_no += 1;
@@ -274,10 +289,10 @@ pub fn record(output: &str) {
             for rep in 0..reps {
                 let planner = Cartesian {
                     robot: &cell.kws,
-                    check_step_m: if obstacle_class == "wrist-flip" && nth % 2 == 0 { 1.0 } else if obstacle_class == "at-stroke-pose" { 0.06 } else { [0.02, 0.05][(nth + k % 13 / 4) % 2] },
+                    check_step_m: if obstacle_class == "wrist-flip" && nth % 2 == 0 { 1.0 } else if obstacle_class == "at-stroke-pose" { 0.06 } else { [0.02, 0.05][(nth + k % 14 / 4) % 2] },
                     // (fine or coarse densification; every second wrist-flip stroke is not densified at all, so that the
                     //  windows run from stroke pose to stroke pose and the bisection has to find the flip itself)
-                    check_step_rad: if obstacle_class == "wrist-flip" && nth % 2 == 0 { 3.2 } else { [3.0f64, 30.0][(nth + k % 13 / 2) % 2].to_radians() },
+                    check_step_rad: if obstacle_class == "wrist-flip" && nth % 2 == 0 { 3.2 } else { [3.0f64, 30.0][(nth + k % 14 / 2) % 2].to_radians() },
                     max_transition_cost: max_cost,
                     transition_coefficients: coeffs,
                     linear_recursion_depth: [3, 8][nth % 2],
